@@ -7,6 +7,25 @@ from .sorts import (Val, Ev, SeqV, SeqE, SetV, MapV, I, B, S, clsof, issub, SV, 
 from . import spec as SP
 from .engine import Res, State, NoneV, Ob, Outcome
 from .frontend import loops_of
+from .sorts import SV as _SV
+
+
+def split_conj(src):
+    """split `A and B` / `implies(G, A and B)` into separately named obligations -> [(suffix, source)]"""
+    e = SP.parse_expr(src)
+    guard = None
+    body = e
+    if isinstance(e, ast.Call) and isinstance(e.func, ast.Name) and e.func.id == "implies" and len(e.args) == 2:
+        guard, body = e.args
+    if isinstance(body, ast.BoolOp) and isinstance(body.op, ast.And) and len(body.values) > 1:
+        out = []
+        for i, v in enumerate(body.values):
+            t = ast.unparse(v)
+            if guard is not None:
+                t = "implies(%s, %s)" % (ast.unparse(guard), t)
+            out.append((".%d" % i, t))
+        return out
+    return [("", src)]
 
 
 def assigned_names(body):
@@ -419,6 +438,11 @@ class LoopMixin:
         # closure variables of nested functions are declared in the contract as `free={name: hint}`
         for name, hint in c.extra.get("free", {}).items():
             fr[name] = self.sym(st, name, hint)
+        self.root_fid = fid
+        for gname, ghint in c.extra.get("ghosts", {}).items():
+            fr[gname] = self.sym(st, "gh_" + gname, ghint)
+        for gname, gsrc in c.extra.get("ghost_defaults", {}).items():
+            fr[gname] = self.spec_value(st, gsrc, fid, st.heap, None, {})
         for label, src, props in c.requires:
             st.assume(self.spec_eval(st, src, fid, st.heap, None, {}))
         st.heap0 = dict(st.heap)
@@ -427,7 +451,10 @@ class LoopMixin:
             st.snap["$measure"] = self.spec_value(st, c.decreases, fid, st.heap0, st.entry_frame, {}).t
         if not self.feasible(st):
             self.emit(st, "vacuity:requires-satisfiable", z3.BoolVal(False), "vacuity")
-        if self.is_generator(fn) and fk != "contextmanager":
+        if self.is_generator(fn) and fk == "contextmanager":
+            st.yield_handler = self.cm_body_handler(c, fid)
+            outs = self.exec_block(fn.body, st)
+        elif self.is_generator(fn):
             outs = self.exec_generator(fn, st, c)
         else:
             outs = self.exec_block(fn.body, st)
@@ -437,6 +464,18 @@ class LoopMixin:
         obs = self.obs
         self.cur = None
         return obs
+
+    def cm_body_handler(self, c, fid):
+        """verifying a @contextmanager function: at its yield, check the at_yield clauses, then let an arbitrary
+        with-body run (interface WithBody: havoc under the rely), and resume normally or by a thrown exception"""
+        def handler(st, val):
+            for label, src, props in c.at_yield:
+                g = self.spec_eval(st, src, fid, st.heap0, st.entry_frame, {"yielded": val})
+                self.emit(st, "yield:" + label, g, "post", props)
+            st.yield_handler = None
+            body = SV("obj", self.alloc(st, "function"), h="WithBody")
+            return self.call_opaque(st, body, "WithBody", "", [], {}, None, None)
+        return handler
 
     def check_exit(self, c, o, fid):
         st = o.st
@@ -450,8 +489,9 @@ class LoopMixin:
                     g = z3.Not(self.spec_eval(st, rs["when"], fid, st.heap0, st.entry_frame, {}))
                     self.emit(st, "post:raises-when:%s" % rs.get("cls"), g, "post")
             for label, src, props in c.ensures:
-                g = self.spec_eval(st, src, fid, st.heap0, st.entry_frame, {"result": val})
-                self.emit(st, "post:" + label, g, "post", props)
+                for sub, ssrc in split_conj(src):
+                    g = self.spec_eval(st, ssrc, fid, st.heap0, st.entry_frame, {"result": val})
+                    self.emit(st, "post:" + label + sub, g, "post", props)
         else:
             exc = o.val
             if not c.raises:
